@@ -95,6 +95,10 @@ type zzC04Variant struct {
 	MapStore bool `json:"mapstore"`
 	OddLease bool `json:"oddlease"`
 
+	// MacIsh6: IPv6 base aa:bb:cc:dd:ee:ff:11:xx -- every group has two hex
+	// digits, so the text of an address is also a well-formed EUI-64.
+	MacIsh6 bool `json:"macish6"`
+
 	// Zoned: the universe has IPv6 zones (address number = zone<<W | bits):
 	// IPv6 link-local base, whatever V6 says.
 	Zoned bool `json:"zoned"`
@@ -139,9 +143,12 @@ func (c zzC04Conc) hostByte(a int, fill bool) (b byte) {
 	return b
 }
 
-func (c zzC04Conc) v6() (ok bool) { return c.v.V6 || c.v.Zoned }
+func (c zzC04Conc) v6() (ok bool) { return c.v.V6 || c.v.Zoned || c.v.MacIsh6 }
 
 func (c zzC04Conc) addrOfByte(b byte) (ip netip.Addr) {
+	if c.v.MacIsh6 && !c.v.Zoned {
+		return netip.AddrFrom16([16]byte{0, 0xaa, 0, 0xbb, 0, 0xcc, 0, 0xdd, 0, 0xee, 0, 0xff, 0, 0x11, 0, b})
+	}
 	if c.v.Zoned {
 		return netip.AddrFrom16([16]byte{0xfe, 0x80, 0, 0, 0, 0, 0, 0, 0, 0, 0, 0, 0, 0x07, 0, b})
 	}
@@ -295,7 +302,7 @@ func (c zzC04Conc) storedStrings(id zzC04ID, owner int) (ss []string) {
 				return zzC04Mapped(c.addr(id.X)).String()
 			}
 
-			return s
+			return c.ipStored(id)
 		case "cid", "mac":
 			if id.K == "mac" && c.v.MacLen == 8 && c.v.MacColon8 {
 				s = c.mac(id.X).String()
@@ -322,16 +329,36 @@ func (c zzC04Conc) storedStrings(id zzC04ID, owner int) (ss []string) {
 			return s
 		}
 	}
+	canon := c.idString(id)
+	if id.K == "ip" {
+		canon = c.ipStored(id)
+	}
 	switch c.mix(h, 91) % 4 {
 	case 0:
-		return []string{c.idString(id)}
+		return []string{canon}
 	case 1:
 		return []string{alt(55)}
 	case 2:
-		return []string{c.idString(id), alt(55)}
+		return []string{canon, alt(55)}
 	default:
 		return []string{alt(55), alt(56)}
 	}
+}
+
+// ipStored is the text under which an address is REGISTERED.  With the MacIsh6
+// base the canonical text (aa:bb:cc:dd:ee:ff:11:5b) is also a well-formed
+// EUI-64, which the registry by design stores as a mac; the user who means the
+// address writes a group with leading zeros (…:11:005b), which only an address
+// can have.  Lookups keep the canonical text: that is what a request carries.
+func (c zzC04Conc) ipStored(id zzC04ID) (s string) {
+	s = c.addr(id.X).String()
+	if !c.v.MacIsh6 || c.v.Zoned {
+		return s
+	}
+	i := strings.LastIndex(s, ":")
+	last := s[i+1:]
+
+	return s[:i+1] + strings.Repeat("0", 4-len(last)) + last
 }
 
 // idString renders an identifier the way a user would type it.
@@ -663,12 +690,14 @@ type zzC04Uni struct {
 }
 
 type zzC04State struct {
-	U  string  `json:"u"`
-	I  int     `json:"i"`
-	K  []int   `json:"k"`
-	Fi [][]int `json:"fi"`
-	Fa []int   `json:"fa"`
-	Ap [][]int `json:"ap"`
+	U  string    `json:"u"`
+	I  int       `json:"i"`
+	K  []int     `json:"k"`
+	Fi [][]int   `json:"fi"`
+	Fa []int     `json:"fa"`
+	Ap [][]int   `json:"ap"`
+	Lo [][][]int `json:"lo"`
+	Fx []int     `json:"fx"`
 }
 
 type zzC04Chunk struct {
@@ -1044,7 +1073,8 @@ type zzC04Soft struct {
 	Call    string       `json:"call"`
 	Got     int          `json:"got"`
 	Want    int          `json:"want"`
-	Absent  int          `json:"absent"` // Apply only: the answer for the same address without a ClientID
+	Absent  int          `json:"absent"`           // Apply only: the answer for the same address without a ClientID
+	Admits  []int        `json:"admits,omitempty"` // loose only: the admissible clients
 	What    string       `json:"what"`
 
 	// Shape: "asfinding" if the answer has the shape the listed finding of
@@ -1070,14 +1100,14 @@ func (rn *zzC04Runner) altLookups(c *zzC04Chunk, state int, o *zzC04Obs, want *z
 		}
 		asFinding := false
 		switch alt {
-		case "nettext":
+		case "nettext", "mappednet":
 			asFinding = got == 0 && w > 0
 		case "cidcase":
 			asFinding = got == absent
 		case "mapped":
 			asFinding = got == 0
 		case "mac8colon":
-			asFinding = got > 0
+			asFinding = got >= 0
 		}
 		shape := "other"
 		if asFinding {
@@ -1119,7 +1149,14 @@ func (rn *zzC04Runner) altLookups(c *zzC04Chunk, state int, o *zzC04Obs, want *z
 		case "mac":
 			if rn.conc.v.MacLen == 8 {
 				colon := rn.conc.mac(id.X).String()
-				report("mac8colon", fmt.Sprintf("Find(id %d = %s)", i+1, colon), find(colon), want.Fi[i][0], 0)
+				// The text is also that of an IPv6 address (ClientsCore.tla,
+				// "Ambiguous texts"): in an IPv6 universe the address reading
+				// decides when nobody registered the mac.
+				w := want.Fi[i][0]
+				if rn.conc.v6() {
+					w = want.Fx[i]
+				}
+				report("mac8colon", fmt.Sprintf("Find(id %d = %s)", i+1, colon), find(colon), w, 0)
 			}
 		}
 	}
@@ -1132,13 +1169,93 @@ func (rn *zzC04Runner) altLookups(c *zzC04Chunk, state int, o *zzC04Obs, want *z
 			report("cidcase", fmt.Sprintf("Apply(cid #%d = %s, addr #%d)", r+1, up, j+1), apply(up, rn.conc.addr(a)), want.Ap[r][j], want.Ap[0][j])
 		}
 	}
+	// loose: the attribution of the query log and the statistics, called the
+	// way home.findMultiple calls it (the ClientID if there is one, then the
+	// text of the address, which has lost its zone).
+	for r, cid := range rn.uni.CIDs {
+		cs := rn.conc.reqCID(cid)
+		for j, a := range rn.uni.Addrs {
+			addr := rn.conc.addr(a).WithZone("")
+			got := rn.loose(cs, addr, o)
+			admits := want.Lo[r][j]
+			okAns := false
+			for _, x := range admits {
+				okAns = okAns || x == got
+			}
+			if okAns {
+				continue
+			}
+			// The shape of the listed finding: a ClientID spelled like a mac
+			// is taken for that mac, or the answer is the one the strict
+			// lookup of the zone-less address gives.
+			asFinding := false
+			if cid.K == "cidmac" || cid.K == "cidmacu" {
+				for i, id := range rn.uni.IDs {
+					asFinding = asFinding || (id.K == "mac" && id.X == cid.X && got > 0 && got == want.Fi[i][0])
+				}
+			} else if got >= 0 {
+				asFinding = got == rn.strictFind(addr.String(), o)
+			}
+			shape := "other"
+			if asFinding {
+				shape = "asfinding"
+			}
+			call := fmt.Sprintf("FindLoose(ClientID #%d = %q, addr #%d = %s)", r+1, cs, j+1, addr)
+			soft(&zzC04Soft{T: "soft", Alt: "loose", U: c.U, Chunk: c.ID, Variant: rn.conc.v, State: state, Call: call, Got: got,
+				Want: admits[0], Admits: admits, What: fmt.Sprintf("%s: got %d, spec admits %v", call, got, admits), Shape: shape})
+		}
+	}
 	if !rn.conc.v6() {
+		for i, id := range rn.uni.IDs {
+			if id.K == "net" {
+				p := rn.conc.prefix(id.X, id.Y)
+				mp := netip.PrefixFrom(zzC04Mapped(p.Addr()), p.Bits()+96).String()
+				report("mappednet", fmt.Sprintf("Find(id %d = %s)", i+1, mp), find(mp), want.Fi[i][0], 0)
+			}
+		}
 		for j, a := range rn.uni.Addrs {
 			m := zzC04Mapped(rn.conc.addr(a))
 			report("mapped", fmt.Sprintf("Find(addr #%d = %s)", j+1, m), find(m.String()), want.Fa[j], 0)
 			report("mapped", fmt.Sprintf("Apply(no ClientID, addr #%d = %s)", j+1, m), apply("", m), want.Ap[0][j], 0)
 		}
 	}
+}
+
+// loose is what home.findMultiple does with the persistent clients: FindLoose
+// for the ClientID of the request, if any, then for the text of its address.
+func (rn *zzC04Runner) loose(cs string, addr netip.Addr, o *zzC04Obs) (idx int) {
+	abs := func(p *Persistent, ok bool) (i int) {
+		i = rn.nameIdx(p, ok)
+		if i > 0 && rn.code(p) != o.K[i-1] {
+			return -4
+		}
+
+		return i
+	}
+	idx = -3
+	zzC04Try(func() {
+		rn.nLook++
+		if cs != "" {
+			if p, ok := rn.rig.st.FindLoose(netip.Addr{}, cs); ok || p != nil {
+				idx = abs(p, ok)
+
+				return
+			}
+		}
+		idx = abs(rn.rig.st.FindLoose(addr, addr.String()))
+	})
+
+	return idx
+}
+
+func (rn *zzC04Runner) strictFind(s string, o *zzC04Obs) (idx int) {
+	idx = -3
+	zzC04Try(func() {
+		p, ok := rn.rig.st.Find(s)
+		idx = rn.nameIdx(p, ok)
+	})
+
+	return idx
 }
 
 // compare returns a description of the first difference between the
@@ -1550,6 +1667,7 @@ func zzC04OneTrace(tb testing.TB, w *zzWriter, tr, nOps int, seed int64, dir str
 	flags := os.Getenv("VERIF_C04_FLAGS")
 	v.MapStore = strings.Contains(flags, "mapstore")
 	v.OddLease = strings.Contains(flags, "oddlease")
+	v.MacIsh6 = strings.Contains(flags, "macish6") && v.V6 && rng.Intn(2) == 0
 	v.MacColon8 = rng.Intn(2) == 0
 	c := zzC04Conc{v: v}
 	zoneOf := func() (z int) {
@@ -1685,6 +1803,9 @@ func zzC04OneTrace(tb testing.TB, w *zzWriter, tr, nOps int, seed int64, dir str
 					id := pool[rng.Intn(len(pool))]
 					q.T, q.ID, q.Conc = "find", &id, c.idString(id)
 					switch {
+					case id.K == "net" && !c.v6() && rng.Intn(3) == 0:
+						p := c.prefix(id.X, id.Y)
+						q.Alt, q.Conc = "mappednet", netip.PrefixFrom(zzC04Mapped(p.Addr()), p.Bits()+96).String()
 					case id.K == "net":
 						q.Alt = "nettext"
 					case id.K == "cid" && rng.Intn(2) == 0:
@@ -1706,6 +1827,31 @@ func zzC04OneTrace(tb testing.TB, w *zzWriter, tr, nOps int, seed int64, dir str
 						q.Alt, q.Conc = "mapped", zzC04Mapped(c.addr(a)).String()
 					}
 					q.R, q.RIDs = absClient(rig.st.Find(q.Conc))
+				case k < 6 && rng.Intn(2) == 0:
+					// the attribution of the query log / statistics, called as
+					// home.findMultiple calls it; the address has lost its zone
+					cid := zzC04NoID
+					switch rng.Intn(6) {
+					case 0, 1:
+						cid = zzC04ID{K: "cid", X: 1 + rng.Intn(5)}
+					case 2:
+						cid = zzC04ID{K: []string{"cidmac", "cidmacu"}[rng.Intn(2)], X: 1 + rng.Intn(5)}
+					}
+					a := addrs[rng.Intn(len(addrs))] & 255
+					addr := c.addr(a)
+					cs := c.reqCID(cid)
+					q.T, q.ID, q.A, q.Alt = "loose", &cid, a, "loose"
+					q.Conc = fmt.Sprintf("FindLoose cid=%q addr=%s", cs, addr)
+					found := false
+					if cs != "" {
+						if p, ok := rig.st.FindLoose(netip.Addr{}, cs); ok {
+							q.R, q.RIDs = absClient(p, ok)
+							found = true
+						}
+					}
+					if !found {
+						q.R, q.RIDs = absClient(rig.st.FindLoose(addr, addr.String()))
+					}
 				case k < 6:
 					q.T, q.N = "name", names[rng.Intn(len(names))]
 					q.R, q.RIDs = absClient(rig.st.FindByName(q.N))
